@@ -277,7 +277,11 @@ def execute(plan, ctx):
     import localcider.sequencePermutants as permmod
     from localcider.sequenceParameters import SequenceParameters
     from localcider.sequencePermutants import SequencePermutants
-    from localcider.backend.localciderExceptions import SequenceException
+    try:
+        from localcider.backend.localciderExceptions import SequenceException
+    except Exception:
+        class SequenceException(Exception):
+            pass
     envmode.apply(plan.get("env"), ctx)
     spmod.print = lambda *a, **k: None
     clock = SimClock(ctx, ctx.streams.stream("clock"), plan.get("clock_mode", "normal"))
